@@ -127,6 +127,11 @@ func (st LString) Format(f fmt.State, c rune) {
 	}
 }
 
+// precision6 is a fmt.State that reports a precision of 6 where none was given.
+type precision6 struct{ fmt.State }
+
+func (precision6) Precision() (int, bool) { return 6, true }
+
 // formatBytes writes b padded to the width of f, counting bytes as C's printf does.
 func formatBytes(f fmt.State, b []byte) {
 	w, _ := f.Width()
@@ -295,6 +300,12 @@ func (nm LNumber) Format(f fmt.State, c rune) {
 				}
 			}
 			io.WriteString(f, s)
+			return
+		}
+		if _, ok := f.Precision(); !ok && (c == 'g' || c == 'G') {
+			// without a precision C's %g uses 6 significant digits; Go's fmt would print the
+			// shortest representation that reads back (0.3333333333333333)
+			defaultFormat(float64(nm), precision6{f}, c)
 			return
 		}
 		defaultFormat(float64(nm), f, c)
